@@ -324,7 +324,9 @@ Bad(b, p, f) ==
   R_static_assert       |-> fm = "sa" /\ f.v = "0",
   R_static_assert_nonconst |-> fm = "sa" /\ f.v \in {"gi", "1.5"},
   R_designator          |-> fm = "init" /\ f.tgt # "struct_I" /\ f.n > 0 /\ BadDesignator(f),
-  R_too_many_init       |-> fm = "init" /\ f.tgt # "struct_I" /\ f.n > 0 /\ ~BadDesignator(f) /\ DesIdx(f.des) + f.n > InitCap(f.tgt),
+  R_too_many_init       |-> \/ fm = "init" /\ f.tgt # "struct_I" /\ f.n > 0 /\ ~BadDesignator(f) /\ DesIdx(f.des) + f.n > InitCap(f.tgt)
+                            \* 6.7.9p2 applies to every brace level: the inner list initializes only the first subobject
+                            \/ fm = "ninit" /\ f.n > (IF f.tgt \in {"arr22", "sarr"} THEN 2 ELSE 1),
   R_init_empty          |-> fm = "init" /\ f.n = 0 /\ f.tgt = "arr_unk",
   R_init_nonconst       |-> \/ fm = "init" /\ p = "file" /\ f.val = "gi"
                             \/ fm = "sinit" /\ T /\ p = "file" /\ ~Ent(f.o).cst,
@@ -671,7 +673,8 @@ Wit == [
      FInit("struct_T", 1, "idx0", "k1"), FInit("arr2", 1, "mem_m", "k1"), FInit("int", 1, "idx0", "k1"), FInit("int", 1, "mem_m", "k1"),
      FInit("arr_unk", 1, "idxneg", "k1")},
   R_too_many_init |-> {FInit("arr2", 3, "none", "k1"), FInit("struct_T", 2, "none", "k1"), FInit("int", 2, "none", "k1"), FInit("arr2", 2, "idx1", "k1"),
-     FInit("struct_S", 3, "none", "k1"), FInit("struct_S", 3, "mem_m", "k1")},
+     FInit("struct_S", 3, "none", "k1"), FInit("struct_S", 3, "mem_m", "k1"),
+     FNInit("arr22", 3), FNInit("arr22", 4), FNInit("sarr", 3), FNInit("sstr", 2), FNInit("sun", 2), FNInit("sun", 3)},
   R_init_nonconst |-> {FInit("int", 1, "none", "gi"), FInit("arr2", 2, "none", "gi"), FSInit("int", "gi"), FSInit("ptr_int", "gp"), FSInit("struct_S", "gs")},
   R_static_init_address |-> {FMisc("static_init_addr_local"), FMisc("static_init_addr_compound"), FMisc("static_init_addr_index")}
      \cup {FSInitAddr(d, sh) : d \in {"auto", "tls_file", "tls_block", "tls_extern"}, sh \in {"scalar", "member", "elem", "decay"}},
@@ -809,6 +812,7 @@ BenignFrags == {
   FTdShadow("void_ptr", "obj"), FTdShadow("void_ptr", "param"), FTdShadow("void_ptr", "member"), FTdShadow("_Bool", "obj"), FTdShadow("_Bool", "param"),
   FTdShadow("_Bool", "member"), FTdShadow("int", "obj"), FTdShadow("int", "param"), FTdShadow("int", "member"), FTdShadow("ptr_td", "obj"),
   FTdShadow("ptr_td", "param"), FTdShadow("ptr_td", "member"), FTdShadow("union_U", "member"),
+  FNInit("arr22", 2), FNInit("arr22", 1), FNInit("sarr", 2), FNInit("sstr", 1), FNInit("sun", 1), FNInit("sarr", 1),
   FUse("gi"), FUse("ek"), FBin("+", "gp", "gi"), FBin("+", "gi", "gq"), FBin("-", "gp", "gcp"), FBin("-", "gq", "gi"), FBin("==", "gp", "k0"),
   FBin("!=", "gv", "gp"), FBin("==", "gfp", "gfp"), FBin("<", "gp", "gcp"), FBin(">=", "gv", "gv"), FBin("<=", "gip", "gip"), FBin("&", "gi", "k0"),
   FBin("%", "gi", "gi"), FBin("<<", "gi", "k0"), FBin("&&", "gp", "gd"), FBin("||", "gfp", "gi"), FBin("*", "gd", "gi"), FBin("/", "gi", "gd"),
@@ -1222,6 +1226,7 @@ SubOf(f) == CASE f.form = "bin" -> (IF f.l \in EntNames /\ f.r \in EntNames /\ N
               [] f.form = "cinit" -> SubOf(f.of)
               [] f.form = "enumfix" -> f.ub
               [] f.form = "swcase" -> f.ct
+              [] f.form = "ninit" -> "nested-" \o f.tgt
               [] f.form = "sinitaddr" -> f.dur \o "-" \o f.shape
               [] f.form = "tdshadow" -> f.spec \o "-" \o f.where
               [] OTHER -> f.form
